@@ -71,6 +71,8 @@ def gen_ops(rng, tier):
     for lim in (0, 1, 5, 9, 10, 11, 100):
         for tr in (0, 1):
             ops.append("limit 1 %d %d 0" % (lim, tr))
+            for hist in ((1, 2, 3) if tr == 0 else (1, 2)):       # TurboJPEG 2.x calls without TJFLAG_LIMITSCANS in the history
+                ops.append("limit 1 %d %d %d" % (lim, tr, hist))
     for mode in (0, 1, 2, 3, 4):
         for (lim, sz) in ((1, 900), (2, 1000), (1, 100), (0, 400), (64, 700), (3, 1100), (1, 600)):
             ops.append("limit 2 %d %d %d" % (lim, mode, sz))
